@@ -3,7 +3,7 @@ import ColoVerif.Proofs.BusySizes
 import ColoVerif.Gen.ApiSizes
 /-
 The hand-written value model of the net arrays (`Model/NetsValue.lean`) against the size skeletons regenerated from
-`src/coloquinte.cpp` (`Gen/ApiSizes.lean`): for ALL states and arguments the translated body of `addNet` (the `setNets` counterpart is not proved yet),
+`src/coloquinte.cpp` (`Gen/ApiSizes.lean`): for ALL states and arguments the translated body of `addNet` / `setNets`,
 run by the size semantics on the abstraction of the value state, throws exactly when the value model refuses and
 leaves exactly the lengths (and `netLimits_.back()`) of the value model's result.  So the validation conditions and
 the length effects of the hand model are re-checked against what the source says on every run.
@@ -105,4 +105,68 @@ theorem addNet_refines (s : Nets) (cells : List Int) (nxo nyo : Nat) :
         simp [this]
     simp [hb, h1']
 
+
+set_option maxRecDepth 4000 in
+theorem setNets_refines (s : Nets) (limits cells : List Int) (nxo nyo nwt : Nat) :
+    ∀ f ∈ ApiSizes.setters, f.name = "setNets" →
+      ((execS noCallS (setArgs limits cells nxo nyo nwt) 0 f.body ⟨false, absSz s⟩).out = .thrown
+          ↔ setNets s limits cells nxo nyo nwt = none) ∧
+      netView (execS noCallS (setArgs limits cells nxo nyo nwt) 0 f.body ⟨false, absSz s⟩).st.sz
+        = netView (absSz (step s (.set limits cells nxo nyo nwt))) := by
+  simp only [ApiSizes.setters, List.forall_mem_cons]
+  repeat' apply And.intro
+  all_goals first
+    | exact fun x hx => absurd hx List.not_mem_nil
+    | (intro h; exact absurd h (by decide))
+    | skip
+  intro _
+  have hcw : (absSz s).len "cellWidth_" = s.nbCells := by simp [absSz]
+  simp only [execS, pinRange_eval, hcw]
+  simp only [Cond.eval, Expr.eval, envOf_arg, setArgs, argAt, List.getD_cons_zero,
+    List.getD_cons_succ, step, apply?, setNets, sortedInts_eq_sortedB]
+  rcases limits with _ | ⟨a, r⟩
+  · simp
+  have hfold : List.getLastD (a :: r) 0 = back (a :: r) := rfl
+  simp only [hfold]
+  generalize back (a :: r) = B
+  have hne0 : ¬ ((r.length : Int) + 1 = 0) := by omega
+  by_cases ha : a = 0
+  rotate_left
+  · simp [ha, hne0]
+  subst ha
+  by_cases hs : sortedB (0 :: r) = true
+  rotate_left
+  · have hs' : sortedB (0 :: r) = false := by simpa using hs
+    simp [hs', hne0]
+  by_cases hb : B = (cells.length : Int) ∧ B = (nxo : Int) ∧ B = (nyo : Int)
+  rotate_left
+  · have hb1 : (¬B = (cells.length : Int) ∨ ¬B = (nxo : Int)) ∨ ¬B = (nyo : Int) := by
+      by_cases x1 : B = (cells.length : Int) <;> by_cases x2 : B = (nxo : Int) <;> by_cases x3 : B = (nyo : Int) <;> simp_all
+    have hb2 : ¬B = (cells.length : Int) ∨ ¬B = (nxo : Int) ∨ ¬B = (nyo : Int) := by
+      rcases hb1 with (h | h) | h
+      · exact Or.inl h
+      · exact Or.inr (Or.inl h)
+      · exact Or.inr (Or.inr h)
+    simp [hs, hne0, hb1, hb2]
+  obtain ⟨c1, c2, c3⟩ := hb
+  subst c1
+  have e2 : cells.length = nxo := by omega
+  have e3 : cells.length = nyo := by omega
+  subst e2
+  by_cases h1 : r.length = nwt
+  · subst h1
+    by_cases hp : pinsInRange s.nbCells cells = true
+    · simp [hs, hne0, ← e3, hp, netView, applyEff, LExpr.eval, Sz.set, absSz, argAt]
+      exact ⟨by omega, by simp [back, List.getLastD_eq_getLast?]⟩
+    · have hp' : pinsInRange s.nbCells cells = false := by simpa using hp
+      simp [hs, hne0, ← e3, hp']
+  · have h1i : ¬((r.length : Int) + 1 = (nwt : Int) + 1) := by omega
+    by_cases h2 : nwt = 0
+    · subst h2
+      by_cases hp : pinsInRange s.nbCells cells = true
+      · simp [hs, hne0, ← e3, h1, h1i, hp, netView, applyEff, LExpr.eval, Sz.set, absSz, argAt]
+        exact ⟨by omega, by simp [back, List.getLastD_eq_getLast?]⟩
+      · have hp' : pinsInRange s.nbCells cells = false := by simpa using hp
+        simp [hs, hne0, ← e3, h1, h1i, hp']
+    · simp [hs, hne0, ← e3, h1, h1i, h2]
 end ColoVerif.NetsValue
